@@ -35,16 +35,19 @@ def _alarm(signum, frame):
 
 
 class time_limit(object):
+    """CPU-time limit (user time of this process, ITIMER_VIRTUAL): independent of machine load.
+    Expiry raises Timeout inside the running code -> the case is `undecided`, never a violation."""
+
     def __init__(self, seconds):
         self.s = seconds
 
     def __enter__(self):
-        self.old = signal.signal(signal.SIGALRM, _alarm)
-        signal.setitimer(signal.ITIMER_REAL, self.s)
+        self.old = signal.signal(signal.SIGVTALRM, _alarm)
+        signal.setitimer(signal.ITIMER_VIRTUAL, self.s)
 
     def __exit__(self, *a):
-        signal.setitimer(signal.ITIMER_REAL, 0)
-        signal.signal(signal.SIGALRM, self.old)
+        signal.setitimer(signal.ITIMER_VIRTUAL, 0)
+        signal.signal(signal.SIGVTALRM, self.old)
         return False
 
 
